@@ -895,6 +895,9 @@ class Folder:
             return d
         if name == 'set':
             return set(self.iterate(args[0], e)) if args else set()
+        if name == 'frozenset':
+            return frozenset(self.iterate(args[0], e)) if args else \
+                frozenset()
         if name == 'sorted':
             return sorted(self.iterate(args[0], e))
         if name == 'reversed':
